@@ -422,6 +422,21 @@ def gen_program(rng, opts=None):
                 m["stmts"].insert(r.randint(0, len(m["stmts"])), st)
                 if dn not in m["stmt_domains"]:
                     m["stmt_domains"].append(dn)
+    if o.get("shadows") and r.random() < 0.4 and not any(w[0] == "rename" for m in mods for w in m["wrap"]):
+        # a module may define a clock domain of its own under a name that is also defined further up: inside that module (and
+        # below it) the name means the module's own domain, everywhere else the outer one.  The shadowing domain gets its own
+        # clock / reset lines (domain entry "<name>@<k>", never used as a name in statements)
+        k = 0
+        base = list(domains)
+        for m in mods:
+            if k < 2 and r.random() < 0.35:
+                b = r.choice(base)
+                rl = b["reset_less"]
+                domains.append({"name": "%s@%d" % (b["name"], k), "edge": r.choice(["pos", "neg"]),
+                                "async_reset": bool(o["allow_async"] and not rl and r.random() < 0.3), "reset_less": rl,
+                                "shadow_of": b["name"]})
+                m["shadow"] = {b["name"]: "%s@%d" % (b["name"], k)}
+                k += 1
     return {"domains": domains, "signals": sigs, "top": mods[0]}
 
 
@@ -554,6 +569,9 @@ def build(prog):
                            else s["init"]),
                      reset_less=s["reset_less"]) for s in prog["signals"]]
     B.ongoing = {}
+    from amaranth.hdl import ClockDomain
+    B.shadow_cds = {d["name"]: ClockDomain(d["shadow_of"], clk_edge=d["edge"], async_reset=d["async_reset"], reset_less=d["reset_less"])
+                    for d in prog["domains"] if d.get("shadow_of")}
     sigs = B.sigs
 
     def ex(e):
@@ -682,6 +700,8 @@ def build(prog):
 
         def elaborate(self, platform):
             m = Module()
+            for key in (self.desc.get("shadow") or {}).values():
+                m.domains += B.shadow_cds[key]
             emit(m, self.desc["stmts"], None)
             for i, sub in enumerate(self.desc["subs"]):
                 e = wrap(sub)
